@@ -124,6 +124,7 @@ class BlockEval:
         self.events = []
         self.loop_ok = loop_ok      # predicate: which For loops may be entered (body walked once, symbolically)
         self.loops = []             # (loop stmt, env at entry)
+        self.loops_done = []        # (loop stmt, env at entry, env after one symbolic pass over the body, pc)
         self.calls = []             # expression statements that are calls (stmt, expanded call, pc)
 
     def sub(self, e, pc, env=None):
@@ -215,12 +216,11 @@ class BlockEval:
             n_ev = len(self.events)
             self.block(s.body, pc)
             self.loops.pop()
+            body_env = dict(self.env)
             assigned |= {e.name for e in self.events[n_ev:]}
             for k in assigned:
                 self.env[k] = ast.Name(id=k, ctx=ast.Load())
-            self.loops.append((s, entry))
-            self.loops_done = getattr(self, 'loops_done', []) + [(s, entry)]
-            self.loops.pop()
+            self.loops_done.append((s, entry, body_env, list(pc)))
             return
         raise AnalysisError('%s: statement outside the recognised estimator shape at line %s: `%s`'
                             % (self.where, getattr(s, 'lineno', '?'), U(s)[:80]))
